@@ -410,6 +410,65 @@ pub fn run(ctx: &mut Ctx) {
         }
     });
 
+    // ------------------------------------------------ every declared signature length 0..=65535, both forms, directly and
+    // through parse_content_and_signature: the exact encoding decodes to the value; the encoding cut 1..4 bytes short,
+    // cut to its header, and cut one byte into the signature yields no value (round 16: a size computed with a
+    // saturating 16-bit addition is wrong only at 65534 / 65535 and only when 1 or 2 bytes are missing)
+    ctx.floor("sig-near-end.cuts", 500_000);
+    ctx.sweep("sig-every-length-near-end", 256, |ctx, idx| {
+        let mut rng = Rng::new(idx ^ 0x5e9d);
+        for lo in 0..256usize {
+            let l = (idx as usize) << 8 | lo;
+            let data = rng.bytes(l);
+            for form in 0..2 {
+                let v = ASig { alg: if form == 0 { Some((rng.u8b(), rng.u8b())) } else { None }, data: data.clone() };
+                let e = enc(|w| v.enc(w));
+                let hdr = e.len() - l;
+                let name = if form == 0 { "parse_digitally_signed" } else { "parse_digitally_signed_old" };
+                if form == 0 {
+                    rt!(ctx, "parse_digitally_signed", e.clone(), &[0u8; 0][..], parse_digitally_signed, v.expected(), lc(l));
+                } else {
+                    rt!(ctx, "parse_digitally_signed_old", e.clone(), &[0u8; 0][..], parse_digitally_signed_old, v.expected(), lc(l));
+                }
+                let mut cuts: Vec<usize> = (1..=4usize).filter(|k| *k <= l).map(|k| e.len() - k).collect();
+                if l > 0 {
+                    cuts.push(hdr);
+                }
+                if l > 1 {
+                    cuts.push(hdr + 1);
+                }
+                cuts.push(hdr - 1);
+                cuts.sort_unstable();
+                cuts.dedup();
+                for cut in cuts {
+                    let p = &e[..cut];
+                    let got = ctx.guarded(name, p, || if form == 0 { classify(&parse_digitally_signed(p)) } else { classify(&parse_digitally_signed_old(p)) });
+                    if let Some(out) = got {
+                        ctx.eval();
+                        ctx.count("sig-near-end.cuts");
+                        ctx.shape(&("sig-near-end", form, lc(l), (e.len() - cut).min(5), out.class()));
+                        if out.is_ok() {
+                            ctx.violation(format!("c13:{}:prefix-accepted", name), json!({"parser": name, "declared_len": l, "missing": e.len() - cut, "input_hex": hex_short(p)}));
+                        }
+                    }
+                    // the same through the combined parser, after a 3-byte content
+                    let mut q = vec![0xc0u8, 0xc1, 0xc2];
+                    q.extend_from_slice(p);
+                    let ext = form == 0;
+                    let got = ctx.guarded("parse_content_and_signature", &q, || { let r: IResult<&[u8], (Vec<u8>, DigitallySigned)> = parse_content_and_signature(&q, take_k(3), ext); classify(&r) });
+                    if let Some(out) = got {
+                        ctx.eval();
+                        ctx.count("sig-near-end.cuts");
+                        if out.is_ok() {
+                            ctx.violation(format!("c13:parse_content_and_signature:prefix-accepted:ext={}", ext), json!({"declared_len": l, "missing": e.len() - cut, "input_hex": hex_short(&q)}));
+                        }
+                    }
+                }
+            }
+        }
+    });
+    ctx.mark_exhaustive("DigitallySigned: every declared signature length 0..=65535 in both forms, exact and cut 1..4 bytes short / to the header");
+
     // ------------------------------------------------ values a key-agreement layer would call degenerate (all-zero / all-ones /
     // low-order public values on the well-known groups, lengths around the group's size; DH public values 0, 1,
     // p-1, p, p+1; generators 0, 1; empty fields): the decoder's job is to return what was encoded
